@@ -264,12 +264,18 @@ impl Accumulator for TrivialNthValueAccumulator {
             // First entry in the state is the aggregation result.
             let n_required = self.n.unsigned_abs() as usize;
             let array_agg_res = ScalarValue::convert_array_to_scalar_vec(&states[0])?;
+            let from_start = self.n > 0;
             for v in array_agg_res.into_iter().flatten() {
                 self.values.extend(v);
-                if self.values.len() > n_required {
+                if from_start && self.values.len() > n_required {
                     // There is enough data collected, can stop merging:
                     break;
                 }
+            }
+            if !from_start && self.values.len() > n_required {
+                // counting from the end: only the last `n_required` values matter
+                let excess = self.values.len() - n_required;
+                self.values.drain(0..excess);
             }
         }
         Ok(())
